@@ -68,6 +68,7 @@ type VerifObs struct {
 	Bexit    bool      `json:"bexit"`
 	Qpark    bool      `json:"qpark"`
 	Spark    bool      `json:"spark"`
+	Split    []bool    `json:"split"` // client parked between addAndCheck and the send on commander ("adds")
 }
 
 type VerifStep struct {
@@ -102,6 +103,8 @@ type VerifHooks struct {
 	// optional: a malformed call (variant) that the wrapper must refuse with an error and without
 	// any effect on the executor; returns whether it was refused
 	Reject func(variant int, id int64) bool
+	// optional: the task value Add hands to the inner PeriodicalExecutor (for "adds")
+	Task func(id int64, w int) any
 }
 
 type VerifFactory func(in VerifInst, rt *VerifRT) *VerifHooks
@@ -217,6 +220,38 @@ type VerifRT struct {
 	bad      map[int64]bool
 	removed  []VerifRemoved
 	agg      *vAgg
+	split    map[int]chan struct{} // clients parked between addAndCheck and the send on commander
+}
+
+// addSplit is (pe *PeriodicalExecutor).Add with a gate between its two halves: a producer that
+// removed the threshold batch under the lock and was descheduled before `pe.commander <- vals`.
+// (A copy of Add's three lines: the window exists in Add itself but nothing there can be parked.)
+func (rt *VerifRT) addSplit(ci int, task any) {
+	pe := rt.hooks.PE
+	if vals, ok := pe.addAndCheck(task); ok {
+		g := make(chan struct{})
+		rt.mu.Lock()
+		rt.split[ci] = g
+		rt.mu.Unlock()
+		<-g
+		pe.commander <- vals
+		<-pe.confirmChan
+	}
+}
+
+func (rt *VerifRT) sendGo(ci int, force bool) bool {
+	rt.mu.Lock()
+	g := rt.split[ci]
+	if g != nil && (force || len(rt.hooks.PE.commander) == 0) {
+		delete(rt.split, ci)
+	} else {
+		g = nil
+	}
+	rt.mu.Unlock()
+	if g != nil {
+		close(g)
+	}
+	return g != nil
 }
 
 // Park registers a batch whose callback has started and blocks until the controller
@@ -436,7 +471,7 @@ func (rt *VerifRT) observe(cs vCensus) VerifObs {
 	o.Size = rt.hooks.Size()
 	o.Guarded = pe.guarded
 	pe.lock.Unlock()
-	o.Inflight = int(atomic.LoadInt32(&pe.inflight))
+	o.Inflight = vInflight(pe)
 	o.Cmd = len(pe.commander) > 0
 	rt.mu.Lock()
 	if rt.ticker != nil && !rt.ticker.stopped.Load() {
@@ -444,6 +479,9 @@ func (rt *VerifRT) observe(cs vCensus) VerifObs {
 	}
 	o.Qpark = rt.qgate != nil
 	o.Spark = len(rt.sgates) > 0
+	for ci := range rt.clients {
+		o.Split = append(o.Split, rt.split[ci] != nil)
+	}
 	for id := range rt.goids {
 		if cs.benter[id] {
 			o.Benter = true
@@ -522,6 +560,7 @@ func (rt *VerifRT) builtin() *VerifHooks {
 				}
 			},
 			Sync:  be.executor.Sync,
+			Task:  func(id int64, w int) any { return id },
 			Tasks: func() []int64 { return vIDs(be.container.tasks) },
 			Size:  func() int { return len(be.container.tasks) }}
 	case "chunk":
@@ -544,6 +583,7 @@ func (rt *VerifRT) builtin() *VerifHooks {
 				}
 			},
 			Sync:  ce.executor.Sync,
+			Task:  func(id int64, w int) any { return chunk{val: id, size: w} },
 			Tasks: func() []int64 { return vIDs(ce.container.tasks) },
 			Size:  func() int { return ce.container.size }}
 	case "bag":
@@ -558,6 +598,7 @@ func (rt *VerifRT) builtin() *VerifHooks {
 		return &VerifHooks{PE: pe,
 			Add:   func(id int64, w int) { pe.Add(vTask{id: id, w: w}) },
 			Flush: func(int) { pe.Flush() }, Wait: func(int) { pe.Wait() }, Sync: pe.Sync,
+			Task:  func(id int64, w int) any { return vTask{id: id, w: w} },
 			Tasks: func() []int64 { return vIDs(vc.tasks) }, Size: func() int { return vc.size }}
 	case "periodical":
 		vc := &vContainer{maxw: rt.in.Maxw, exec: rt.callback}
@@ -566,6 +607,7 @@ func (rt *VerifRT) builtin() *VerifHooks {
 		return &VerifHooks{PE: pe,
 			Add:   func(id int64, w int) { pe.Add(vTask{id: id, w: w}) },
 			Flush: func(int) { pe.Flush() }, Wait: func(int) { pe.Wait() }, Sync: pe.Sync,
+			Task:  func(id int64, w int) any { return vTask{id: id, w: w} },
 			Tasks: func() []int64 { return vIDs(vc.tasks) }, Size: func() int { return vc.size }}
 	case "agg":
 		ac := &vAgg{rt: rt, shape: rt.in.Shape, empty: rt.in.Empty, maxw: rt.in.Maxw}
@@ -574,6 +616,7 @@ func (rt *VerifRT) builtin() *VerifHooks {
 		return &VerifHooks{PE: pe,
 			Add:   func(id int64, w int) { pe.Add(vTask{id: id, w: w}) },
 			Flush: func(int) { pe.Flush() }, Wait: func(int) { pe.Wait() }, Sync: pe.Sync,
+			Task:  func(id int64, w int) any { return vTask{id: id, w: w} },
 			Tasks: func() []int64 { return append([]int64{}, ac.ids...) }, Size: func() int { return ac.size },
 			CanAddTask: func(id int64, w int) bool {
 				if (ac.shape == "int" || ac.shape == "bool") && (w < 1 || ac.maxw > 1) {
@@ -583,6 +626,31 @@ func (rt *VerifRT) builtin() *VerifHooks {
 			}}
 	}
 	return nil
+}
+
+// vInflight reads pe.inflight whatever its representation (int32 updated with sync/atomic, an
+// atomic.Int32, a plain counter, a flag): a refactoring of that field must not keep the
+// executor from building.  Read at quiescence only.
+func vInflight(pe *PeriodicalExecutor) int {
+	f := reflect.ValueOf(pe).Elem().FieldByName("inflight")
+	for f.IsValid() && f.Kind() == reflect.Struct && f.NumField() > 0 {
+		f = f.Field(f.NumField() - 1) // atomic.Int32{_ noCopy; v int32}
+	}
+	if !f.IsValid() {
+		return -1
+	}
+	switch f.Kind() {
+	case reflect.Int, reflect.Int8, reflect.Int16, reflect.Int32, reflect.Int64:
+		return int(f.Int())
+	case reflect.Uint, reflect.Uint8, reflect.Uint16, reflect.Uint32, reflect.Uint64:
+		return int(f.Uint())
+	case reflect.Bool:
+		if f.Bool() {
+			return 1
+		}
+		return 0
+	}
+	return -1
 }
 
 func vSameObs(a, b []VerifObs) bool { return reflect.DeepEqual(a, b) }
@@ -598,7 +666,7 @@ func VerifRunCase(c VerifCase, factory VerifFactory) (out VerifOut) {
 	timex.SetFakeNow(1000000)
 	r := &vRun{c: c}
 	for i, in := range c.Insts {
-		rt := &VerifRT{idx: i, in: in, cs: &r.c, goids: map[int64]bool{}, bad: map[int64]bool{}}
+		rt := &VerifRT{idx: i, in: in, cs: &r.c, goids: map[int64]bool{}, bad: map[int64]bool{}, split: map[int]chan struct{}{}}
 		for _, b := range c.Bad {
 			rt.bad[b] = true
 		}
@@ -764,6 +832,26 @@ func VerifRunCase(c VerifCase, factory VerifFactory) (out VerifOut) {
 			}
 			start(rt, ci, func() { rt.hooks.Add(id, w) })
 			okRun = settle([]any{"add", rt.idx, ci, id, w})
+		case "adds": // Add with its producer parked between addAndCheck and the send (released by "sendgo")
+			rt := inst(op[1])
+			if rt == nil || rt.hooks.Task == nil {
+				continue
+			}
+			ci, id, w := int(vNum(op[2])), vNum(op[3]), int(vNum(op[4]))
+			if rt.hooks.CanAddTask != nil && !rt.hooks.CanAddTask(id, w) {
+				continue
+			}
+			start(rt, ci, func() { rt.addSplit(ci, rt.hooks.Task(id, w)) })
+			okRun = settle([]any{"adds", rt.idx, ci, id, w})
+		case "sendgo": // only when the send will not block (commander empty): the model's next action of that client
+			rt := inst(op[1])
+			if rt == nil {
+				continue
+			}
+			ci := int(vNum(op[2]))
+			if rt.sendGo(ci, false) {
+				okRun = settle([]any{"sendgo", rt.idx, ci})
+			}
 		case "addn": // n Adds of weight 1 in a row by one client (ids first, first+1, ...)
 			rt := inst(op[1])
 			if rt == nil || (rt.hooks.CanAdd != nil && !rt.hooks.CanAdd()) || rt.hooks.CanAddTask != nil {
@@ -911,6 +999,9 @@ func VerifRunCase(c VerifCase, factory VerifFactory) (out VerifOut) {
 		for _, rt := range r.rts {
 			qgo(rt)
 			for sgo(rt) {
+			}
+			for ci := range rt.clients {
+				rt.sendGo(ci, true)
 			}
 			for _, g := range rt.sortedParked() {
 				rt.release(g)
